@@ -9,6 +9,7 @@ mod delta;
 mod flock;
 mod image;
 mod seglog;
+mod seek;
 mod shards;
 mod iohook;
 mod leafupd;
@@ -81,6 +82,7 @@ fn main() {
         }
         "branchupd" => branchupd::run(seed, cases, &mut sink),
         "branchupd-firstleaf" => branchupd::first_leaf_scenario(&mut sink),
+        "seek" => seek::run(seed, cases, &mut sink),
         "core-pp" => core_pp::run(seed, cases, &mut sink),
         "core-mp" => core_mp::run(seed, cases, &mut sink),
         "core-mp-corpus" => {
